@@ -91,6 +91,7 @@ def c03(ck, tier, seed):
                       "node_count = CanonSize (semantic definition, n <= 5)")
     vlib.ensure_tables()
     plan = _tables_plan(tier, seed, "bool") + _hist_plan(tier, seed, quick_count=40) + _churn_plan(tier, seed)
+    plan += [("reorder", {"kind": k, "seed": seed * 13 + i, "tier": tier}) for i, k in enumerate(BOOL_KINDS)]
     _bool_suite(ck, ["C03"], plan)
     store_mc(ck, tier)
 
